@@ -178,6 +178,7 @@ def run(ctx):
         dict_offsets_rule(ctx, facts, cfg)
         reemit.dispatch_rule(ctx, facts, cfg, 'C06.b', CR, 'compression')
         reemit.accounting_rule(ctx, facts, cfg, 'C06.b', CR, havoc=8, opaque=['SuffixDict::insert'])
+        reemit.rewrite_on_every_path_rule(ctx, facts, cfg, 'C06.b', CR, ('Compress::copy_compressed_name', 'Compress::copy_compressed_name_with_base_offset'), floor=3)
         reemit.fixed_parts_rule(ctx, facts, cfg, 'C06.b', CR)
         reemit.cursor_rule(ctx, facts, cfg, 'C06.b', ['compress::Compress::compress'])
         reemit.open_ended_rule(ctx, facts, cfg, 'C06.d', 'compress::Compress::compress', ('compress::',), 6, 'the compressor')
